@@ -14,14 +14,14 @@ CInit == MaxRetx \in 0..1000 /\ MaxPeerMsgs \in 0..3 /\ IgnoreAfterDone = TRUE /
 \* sensitivity: the original handleCEA (late CEAs not ignored) does not preserve it
 CInitOriginal == MaxRetx \in 0..1000 /\ MaxPeerMsgs \in 0..3 /\ IgnoreAfterDone = FALSE /\ OnceClose = TRUE
 
-Cli == {"start", "written", "sent", "failing", "done_ok", "done_err"}
+Cli == {"start", "written", "sent", "wfailed", "failing", "done_ok", "done_err"}
 Queues == {<<>>} \cup {<<a>> : a \in {"ok", "fail"}} \cup {<<a, b>> : a, b \in {"ok", "fail"}}
             \cup {<<a, b, c>> : a, b, c \in {"ok", "fail"}}
 TypeOK == /\ cli \in Cli /\ i \in 0..(MaxRetx + 1) /\ errc \in {"open", "closed"} /\ srv \in {"idle", "sendErr", "panicked"}
           /\ meta \in BOOLEAN /\ closed \in BOOLEAN /\ appOK \in BOOLEAN /\ crashed \in BOOLEAN
           /\ inq \in Queues /\ ncer \in 0..(MaxRetx + 1) /\ npeer \in 0..MaxPeerMsgs /\ Len(inq) <= npeer
 IndInv == /\ TypeOK
-          /\ (cli = "start") => (ncer = i /\ i <= MaxRetx)
+          /\ (cli \in {"start", "wfailed"}) => (ncer = i /\ i <= MaxRetx)
           /\ (cli \in {"written", "sent", "failing"}) => (ncer = i + 1 /\ i <= MaxRetx)
           /\ ~crashed
           /\ (cli = "done_err") => closed
